@@ -98,10 +98,19 @@ def run_sign(ctx, c):
     if c["kc"] == "one": k = 1
     elif c["kc"] == "qm1": k = q - 1
     stape = mk_tape(c, "rejk", q, p, n, k)
-    sig = x.out(3 * l // 8)
-    r = x.call("bignSign", sig, P, OID, len(oid), x.buf(H), dk, GEN, x.tape(stape, mode=2))
+    # placement of hash and signature: separate blocks, or adjacent in one block in either order (disjoint: bign.h refuses only an overlap)
+    sl = 3 * l // 8
+    lay = (len(c["seed"]) + c["bit"]) % 3
+    if lay == 0:
+        sig, HB = x.out(sl), x.buf(H)
+    elif lay == 1:
+        blk = x.buf(H + b"\xCC" * sl); HB, sig = blk, blk.at(n)
+    else:
+        blk = x.buf(b"\xCC" * sl + H); sig, HB = blk, blk.at(sl)
+    r = x.call("bignSign", sig, P, OID, len(oid), HB, dk, GEN, x.tape(stape, mode=2))
     if r:
-        raise Fail("bignSign failed: %s (l=%d h=%s)" % (ename(r), l, c["h"]))
+        raise Fail("bignSign failed: %s (l=%d h=%s, hash/signature layout %d)" % (ename(r), l, c["h"], lay))
+    sig = x.buf(sig.read(0, sl))
     msig, _ = RB.sign_from_tape(M, oid, H, md, stape + b"\xff" * n)
     if sig.read() != msig:
         raise Fail("bignSign != model (l=%d h=%s d=%s k=%s): %s vs %s" % (l, c["h"], c["d"], c["kc"], sig.read().hex(), msig.hex()))
@@ -110,10 +119,16 @@ def run_sign(ctx, c):
         raise Fail("bignVerify rejects a fresh signature: %s (l=%d h=%s d=%s)" % (ename(r), l, c["h"], c["d"]))
     # deterministic signature
     tt = None if c["t"] is None else expand(c["seed"] + "t", c["t"])
-    sig2 = x.out(3 * l // 8)
-    r = x.call("bignSign2", sig2, P, OID, len(oid), x.buf(H), dk, x.buf(tt) if tt is not None else None, len(tt) if tt is not None else 0)
+    if lay == 0:
+        sig2, HB = x.out(sl), x.buf(H)
+    elif lay == 1:
+        blk = x.buf(H + b"\xCC" * sl); HB, sig2 = blk, blk.at(n)
+    else:
+        blk = x.buf(b"\xCC" * sl + H); sig2, HB = blk, blk.at(sl)
+    r = x.call("bignSign2", sig2, P, OID, len(oid), HB, dk, x.buf(tt) if tt is not None else None, len(tt) if tt is not None else 0)
     if r:
-        raise Fail("bignSign2 failed: %s" % ename(r))
+        raise Fail("bignSign2 failed: %s (hash/signature layout %d)" % (ename(r), lay))
+    sig2 = x.buf(sig2.read(0, sl))
     if sig2.read() != RB.sign2(M, oid, H, md, tt):
         raise Fail("bignSign2 != model (l=%d h=%s t=%s)" % (l, c["h"], c["t"]))
     if x.call("bignVerify", P, OID, len(oid), x.buf(H), sig2, Qk):
